@@ -393,7 +393,9 @@ static void run_tuple(const Tuple& tp) {
     alarm(10);
     run_tuple_T<Small>(tp, rp, 0);
     run_tuple_T<Big>(tp, rp, 1);
-    run_tuple_T<Own>(tp, rp, 2);
+    // heap-owning elements cost an allocation per element copy: every tuple in the quick tier, every fifth in the thorough tier
+    static unsigned long long own_n = 0;
+    if (!vh::args().thorough() || own_n++ % 5 == 0) run_tuple_T<Own>(tp, rp, 2);
     // outcome classes: show that the enumeration reaches the interesting shapes for every k
     int k = (int)tp.size(), empties = 0;
     size_t total = 0, maxlen = 0;
